@@ -107,13 +107,18 @@ func runFrames(res *lp.Result, prop string) {
 				if cs.comp != nil && (kind == "Query" || kind == "RowsResult") {
 					extra = 3 // bodies that compress extremely well (long runs of one byte): ratios far beyond 100:1
 				}
-				for i := 0; i < per+extra; i++ {
+				for i := 0; i < per+extra+1; i++ {
 					g := &gen.G{R: rng, V: v, Big: rng.Intn(8) == 0}
 					f := g.Frame(kind)
 					if f == nil {
 						continue
 					}
-					if i >= per {
+					if i == per+extra {
+						// one frame per kind whose lists have more than 1024 entries (where the kind has lists)
+						if cs.name != "none" || !g.Enlarge(f) {
+							continue
+						}
+					} else if i >= per {
 						n := []int{9000, 40000, 140000}[i-per]
 						switch m := f.Body.Message.(type) {
 						case *message.Query:
